@@ -440,10 +440,14 @@ func opThreadLast(env *LEnv, args *LVal) *LVal {
 		cells := make([]*LVal, 0, len(expr.Cells)+1)
 		cells = append(cells, expr.Cells...)
 		cells = append(cells, val)
+		// The call built for this step stands where the form it was built
+		// from was written: errors and stack frames get that position.
+		call := SExpr(cells)
+		call.source = expr.source
 		if i == len(exprs)-1 {
-			return env.Terminal(SExpr(cells))
+			return env.Terminal(call)
 		}
-		val = env.Eval(SExpr(cells))
+		val = env.Eval(call)
 		if val.Type == LError {
 			return val
 		}
@@ -469,10 +473,12 @@ func opThreadFirst(env *LEnv, args *LVal) *LVal {
 		cells = append(cells, expr.Cells[0])
 		cells = append(cells, val)
 		cells = append(cells, expr.Cells[1:]...)
+		call := SExpr(cells)
+		call.source = expr.source
 		if i == len(exprs)-1 {
-			return env.Terminal(SExpr(cells))
+			return env.Terminal(call)
 		}
-		val = env.Eval(SExpr(cells))
+		val = env.Eval(call)
 		if val.Type == LError {
 			return val
 		}
